@@ -371,3 +371,90 @@ fn c20_raw_ro_clone_reads_expanded() {
     kani::cover!(w.v.stored_len() > region_elems, "logical length above the on-disk length");
     core::mem::forget((ro, w));
 }
+
+// ---------------------------------------------------------------------------------------------
+// C08: cursor / sorted reads on a vector with a deleted slot (index-addressed: element or nothing)
+raw_harness!(c08_raw_cursor_deleted_slot, {
+    let w = raw_world_d(0, 1, 0, false, true);
+    let len = w.v.len();
+    kani::assume(len >= 2);
+    let k: usize = kani::any();
+    kani::assume(k < len);
+    let want = alpha(&w, k);
+    let got = {
+        let mut c = w.v.cursor();
+        let g = c.get(k);
+        core::mem::forget(c);
+        g
+    };
+    // an index-addressed read returns the element of that index or nothing if it is deleted
+    assert!(got == want || got.is_none());
+    kani::cover!(true, "cursor read completed");
+    core::mem::forget(w);
+});
+
+// ---------------------------------------------------------------------------------------------
+// C14: import keeps matching data; discards only on a real version/format mismatch
+#[kani::proof]
+#[kani::unwind(10)]
+#[kani::stub(alloc::fmt::format, stubs::format_stub)]
+#[kani::stub(rawdb::Database::sync_bg_tasks, rawdb::verif_root::sync_bg_tasks_stub)]
+#[kani::stub(rawdb::Database::remove_region_if_exists, rawdb::verif_root::remove_region_if_exists_stub)]
+#[kani::stub(std::vec::Vec::<T>::with_capacity, stubs::with_capacity_stub)]
+#[kani::stub(std::vec::Vec::<T>::reserve, stubs::reserve_stub)]
+#[kani::stub(<[u8]>::to_vec, stubs::to_vec_stub8)]
+fn c14_raw_import_step() {
+    let mut buf: Box<[u8; CAPB]> = Box::new(kani::any());
+    // stored header (if the region is long enough to have one)
+    let stored_hv: u32 = kani::any();
+    let stored_vv: u32 = kani::any();
+    let stored_fmt: u8 = kani::any();
+    kani::assume(stored_vv < 1000);
+    buf[0..4].copy_from_slice(&stored_hv.to_le_bytes());
+    buf[4..8].copy_from_slice(&stored_vv.to_le_bytes());
+    buf[20] = stored_fmt;
+    let region_len: usize = kani::any();
+    kani::assume(region_len <= CAPB);
+    let (db, _r) = rawdb::verif_root::api_contract_db_named(buf.as_mut_ptr(), CAPB, region_len, "v/usize");
+    let req: u32 = kani::any();
+    kani::assume(req < 1000);
+    let forced = kani::any::<bool>();
+    rawdb::verif_root::ghost_clear();
+    let opts = ImportOptions::new(&db, "v", Version::new(req));
+    let res = if forced { V::forced_import_with(opts, Format::Bytes) } else { V::import_with(opts, Format::Bytes) };
+    let removals = rawdb::verif_root::ghost_removals();
+    let has_header = region_len >= HEADER_OFFSET;
+    let aligned = region_len <= HEADER_OFFSET || (region_len - HEADER_OFFSET) % 4 == 0;
+    // "matching": what a plain import with the same user-level version stored (layer VERSION = 1)
+    let stored_matches = has_header && stored_hv == 2 && stored_vv == req + 1 && stored_fmt == 0;
+    if !forced {
+        // plain import never discards anything
+        assert!(removals == 0);
+        match &res {
+            Ok(v) => {
+                assert!(region_len == 0 || (stored_matches && aligned));
+                if region_len > 0 {
+                    assert!(v.len() == (region_len - HEADER_OFFSET) / 4);
+                    assert!(rawdb::verif_root::ghost_writes() == 0);
+                }
+            }
+            Err(_) => {
+                assert!(region_len > 0 && !(stored_matches && aligned));
+                assert!(rawdb::verif_root::ghost_writes() == 0, "refused import wrote to the region");
+            }
+        }
+    } else {
+        // forced import: matching data is kept, never discarded
+        if region_len == 0 || (stored_matches && aligned) {
+            assert!(removals == 0, "forced import discarded a vector whose version and format match");
+        }
+        // a misaligned payload behind a matching header is corruption, not a version change
+        if stored_matches && !aligned {
+            assert!(removals == 0 && res.is_err());
+        }
+    }
+    kani::cover!(!forced && res.is_ok() && region_len == HEADER_OFFSET + 8, "matching import with two elements");
+    kani::cover!(!forced && res.is_err() && region_len == HEADER_OFFSET, "header-only region with another version refused");
+    kani::cover!(forced && removals == 1, "forced import discards on mismatch");
+    core::mem::forget((res, db, buf));
+}
